@@ -1030,14 +1030,31 @@ class SymStr(Sym):
         e = enc.lower().replace("-", "").replace("_", "")
         if e in ("latin1", "iso88591"):
             return SymSeq(self.codes(), "bytes")
-        if e in ("utf8", "ascii"):
+        if e == "ascii":
             C = core.CTX
             for c in self.codes():
-                if not isinstance(c, int) and C.is_sat(toint(c) >= 128):
-                    raise Unsupported("encode(%s) of SymStr with possibly non-ASCII characters" % enc)
-                if isinstance(c, int) and c >= 128:
-                    raise Unsupported("encode(%s) of SymStr with non-ASCII characters" % enc)
+                if (isinstance(c, int) and c >= 128) or (not isinstance(c, int) and C.branch(toint(c) >= 128)):
+                    raise UnicodeEncodeError("ascii", u"\xff", 0, 1, "ordinal not in range(128)")
             return SymSeq(self.codes(), "bytes")
+        if e == "utf8":
+            C = core.CTX
+            out = []
+            for c in self.codes():
+                if isinstance(c, int):
+                    out.extend(chr(c).encode("utf-8", errors))
+                    continue
+                t = toint(c)
+                if not C.branch(t >= 0x80):
+                    out.append(c)
+                elif not C.branch(t >= 0x800):
+                    out += [SymInt(S(0xC0 + t / 64), ub=256), SymInt(S(0x80 + t % 64), ub=256)]
+                elif not C.branch(t >= 0x10000):
+                    if C.branch(z3.And(t >= 0xD800, t <= 0xDFFF)):
+                        raise UnicodeEncodeError("utf-8", u"\ud800", 0, 1, "surrogates not allowed")
+                    out += [SymInt(S(0xE0 + t / 4096), ub=256), SymInt(S(0x80 + (t / 64) % 64), ub=256), SymInt(S(0x80 + t % 64), ub=256)]
+                else:
+                    out += [SymInt(S(0xF0 + t / 262144), ub=256), SymInt(S(0x80 + (t / 4096) % 64), ub=256), SymInt(S(0x80 + (t / 64) % 64), ub=256), SymInt(S(0x80 + t % 64), ub=256)]
+            return SymSeq(out, "bytes")
         raise Unsupported("encode(%s) of SymStr" % enc)
 
     def startswith(self, p):
